@@ -15,6 +15,7 @@ type sessO struct {
 	inTx     bool
 	snap     Table // committed working root when the transaction began (observer's view)
 	snapO    Table // the same for otherdb.t
+	snapH    Table // the HEAD commit's table when the transaction began
 	own      []Op  // own successful writes since then
 }
 
@@ -153,7 +154,7 @@ func (h *H) runTxn(p *Program) {
 		before := cur
 		// --- oracle: does this statement start a transaction?  (BEGIN handled after its implicit commit)
 		if o.Kind != "begin" && o.Kind != "commit" && o.Kind != "rollback" && !s.inTx {
-			s.inTx, s.snap, s.snapO, s.own = true, before.W.Clone(), before.O.Clone(), nil
+			s.inTx, s.snap, s.snapO, s.snapH, s.own = true, before.W.Clone(), before.O.Clone(), before.Hd.Clone(), nil
 		}
 		res := sess[o.S].Exec(stmt)
 		class := implClass(res)
@@ -179,6 +180,24 @@ func (h *H) runTxn(p *Program) {
 				rep.Hit("c22:reads-checked")
 				if !s.snap.Eq(before.W) {
 					rep.Hit("c22:read-while-committed-state-differs-from-snapshot")
+				}
+			}
+		}
+		if (o.Kind == "readh" || o.Kind == "readb") && res.Err == nil {
+			tv, err := tableOf(res, colIsStr)
+			if err != nil {
+				panic(err)
+			}
+			rowsWire = tv.Dump()
+			// --- C22 oracle: HEAD- and branch-relative AS OF reads inside a transaction see the commit the branch
+			// had when the transaction began
+			if prop == "C22" {
+				if !tv.Eq(s.snapH) {
+					violate("as-of-head-read-not-at-transaction-start", fmt.Sprintf("stmt %d: session %d: %s returned %s inside a transaction that began when HEAD held %s (HEAD now: %s)", idx, o.S, stmt, tv.Dump(), s.snapH.Dump(), before.Hd.Dump()))
+				}
+				rep.Hit("c22:as-of-head-reads-checked")
+				if !s.snapH.Eq(before.Hd) {
+					rep.Hit("c22:as-of-head-read-while-head-moved-since-tx-start")
 				}
 			}
 		}
@@ -216,6 +235,8 @@ func (h *H) runTxn(p *Program) {
 			commitPoint = s.inTx
 		case "dcommit":
 			commitPoint = true // also "nothing to commit" finalizes (commits) the SQL transaction first
+		case "readh", "readb":
+			commitPoint = s.auto && !s.explicit
 		case "reado", "inso", "updo", "delo":
 			commitPoint = s.auto && !s.explicit
 			if o.Kind != "reado" && class != "ok" && class != "dup-key" {
@@ -296,7 +317,7 @@ func (h *H) runTxn(p *Program) {
 		switch o.Kind {
 		case "begin":
 			if class == "ok" {
-				s.inTx, s.explicit, s.snap, s.snapO, s.own = true, true, cur.W.Clone(), cur.O.Clone(), nil
+				s.inTx, s.explicit, s.snap, s.snapO, s.snapH, s.own = true, true, cur.W.Clone(), cur.O.Clone(), cur.Hd.Clone(), nil
 			} else {
 				s.inTx, s.explicit = false, false
 			}
